@@ -10,7 +10,8 @@ from mc.core import Node, problem
 LEVEL = "exploration"
 ASSUMPTIONS = [
     "two distinct tree objects are compared (is_equal(A, A) on one object is outside the statement)",
-    "differences in dict insertion order only are unspecified and not generated",
+    "equal mappings in another insertion order must compare equal",
+    "shapes up to 6 (thorough 8) nodes x 4 populations, plus the deep / wide shapes up to 80 nodes",
 ]
 
 
